@@ -53,7 +53,7 @@ CNext ==
   /\ LET r == Rec[l + 1] IN
      /\ ((r.kind = "sent" /\ ~SentOK(l + 1)) => PrintT(<<"FAIL", "cli", l + 1, {"C20.sent"}>>))
      /\ ((r.kind = "query" /\ ~QueryOK(l + 1)) => PrintT(<<"FAIL", "cli", l + 1, {"C20.query"}>>))
-     /\ ((r.kind = "start" /\ r.exit # 0) => PrintT(<<"FAIL", "cli", l + 1, {"C20.start"}>>))
+     /\ ((r.kind \in {"start", "node", "tx"} /\ r.exit # 0) => PrintT(<<"FAIL", "cli", l + 1, {"C20.start"}>>))
      /\ ((r.kind = "help" /\ (r.exit # 0 \/ ~r.mentions)) => PrintT(<<"FAIL", "cli", l + 1, {"C20.help"}>>))
   /\ (l + 1 = Len(Rec) =>
         /\ (~StartOK => PrintT(<<"FAIL", "cli", 0, {"C20.start"}>>))
